@@ -149,9 +149,10 @@ def spec_stepd(p, seq):
 
 
 GRID = {
-    "ddm": [(1, 0.5, 1.0), (2, 1.0, 2.0), (3, 2, 3), (4, 0.25, 0.75)],
-    "eddm": [(1, 0.95, 0.9), (2, 0.99, 0.7), (3, 0.9, 0.5)],
-    "stepd": [(1, 0.4, 0.2), (2, 0.3, 0.1), (3, 0.5, 0.05)],
+    # (the last entry of each list has the two thresholds "crossed": a drift level that is reached before the warning level)
+    "ddm": [(1, 0.5, 1.0), (2, 1.0, 2.0), (3, 2, 3), (4, 0.25, 0.75), (2, 2.0, 1.5)],
+    "eddm": [(1, 0.95, 0.9), (2, 0.99, 0.7), (3, 0.9, 0.5), (2, 0.8, 0.95)],
+    "stepd": [(1, 0.4, 0.2), (2, 0.3, 0.1), (3, 0.5, 0.05), (2, 0.05, 0.2)],
 }
 
 
